@@ -43,8 +43,15 @@ func c06CheckPost(m *bMon) {
 	for i := 0; i < m.n; i++ {
 		iv, ok := m.postItems[i].Value().(int)
 		vAssert(ok && iv == 100+i, "items-in-the-order-prep-produced-them")
-		vAssert(m.started[i] == 1, "every-item-processed-exactly-once")
+		vAssert(m.started[i] <= 1, "no-item-processed-twice")
 		r := m.postRes[i]
+		if m.started[i] == 0 {
+			// only stop mode may leave an item unprocessed; its slot is then an error, never another item's outcome
+			vAssert(m.stop, "every-item-processed-exactly-once")
+			vAssert(r.IsError(), "slot-of-an-unprocessed-item-is-an-error")
+			vCover("stop-skipped")
+			continue
+		}
 		if m.failed[i] {
 			nfail++
 			vAssert(r.IsError() && r.Error() == m.errTok[i], "slot-i-holds-the-error-of-item-i")
@@ -64,7 +71,10 @@ func VH_C06_batch() {
 	vUnwind(10)
 	m := &bMon{}
 	bConfig(m)
-	m.minStarts = 1
+	m.stop = vNondet[bool]("stop")
+	if !m.stop {
+		m.minStarts = 1
+	}
 	b := bNode(m, c06Exec(m))
 	act, err := Run(m.ctx, b, NewSharedStore())
 	vAssert(err == nil && act == "done", "batch-run-succeeds")
